@@ -118,6 +118,14 @@ ChildPropVector(e, a, d, x, mode) ==
       Refused),
     Step("proposal_roundtrip", "C11", FALSE, [kind |-> "child", prop |-> [p EXCEPT !.tr = [j \in 1..Len(p.tr) |-> IF j = 1 THEN TlvKeyLen(p.tr[1], 256) ELSE p.tr[j]]], wire |-> wire, scratch |-> scratch],
       Refused),
+    \* every element in turn replaced by one the library does not implement (AES-CTR, AUTH_AES_XCBC_96 / id 9, MODP group 5, ESN id 7)
+    Step("proposal_roundtrip", "C11", FALSE, [kind |-> "child", prop |-> [p EXCEPT !.tr = [j \in 1..Len(p.tr) |-> IF p.tr[j].tt = 1 THEN [p.tr[j] EXCEPT !.tid = 13] ELSE p.tr[j]]], wire |-> wire, scratch |-> scratch], Refused),
+    Step("proposal_roundtrip", "C11", FALSE, [kind |-> "child", prop |-> [p EXCEPT !.tr = [j \in 1..Len(p.tr) |-> IF p.tr[j].tt = 3 THEN [p.tr[j] EXCEPT !.tid = 5] ELSE p.tr[j]]], wire |-> wire, scratch |-> scratch],
+         IF a = "none" THEN [panic |-> FALSE, propsame |-> TRUE] ELSE Refused),
+    Step("proposal_roundtrip", "C11", FALSE, [kind |-> "child", prop |-> [p EXCEPT !.tr = [j \in 1..Len(p.tr) |-> IF p.tr[j].tt = 3 THEN [p.tr[j] EXCEPT !.tid = 9] ELSE p.tr[j]]], wire |-> wire, scratch |-> scratch],
+         IF a = "none" THEN [panic |-> FALSE, propsame |-> TRUE] ELSE Refused),
+    Step("proposal_roundtrip", "C11", FALSE, [kind |-> "child", prop |-> [p EXCEPT !.tr = [j \in 1..Len(p.tr) |-> IF p.tr[j].tt = 4 THEN [p.tr[j] EXCEPT !.tid = 5] ELSE p.tr[j]]], wire |-> wire, scratch |-> scratch],
+         IF d = "none" THEN [panic |-> FALSE, propsame |-> TRUE] ELSE Refused),
     \* every ESN identifier but 0 and 1 is unknown
     Step("proposal_roundtrip", "C11", FALSE, [kind |-> "child", prop |-> [p EXCEPT !.tr = [j \in 1..Len(p.tr) |-> IF p.tr[j].tt = 5 THEN [p.tr[j] EXCEPT !.tid = 65535] ELSE p.tr[j]]], wire |-> wire, scratch |-> scratch],
       Refused) >>)
